@@ -8,6 +8,7 @@ import (
 	"math"
 	"strconv"
 	"strings"
+	"sync"
 
 	"github.com/btcsuite/btcd/btcutil/v2"
 	"github.com/btcsuite/btcd/btcutil/v2/bloom"
@@ -186,6 +187,44 @@ func runBloomOps(flt *bloom.Filter, ops string) string {
 	r := res.String()
 	if r == "" {
 		r = "-"
+	}
+	// the final filter queried by four goroutines at once (same data slices) answers like one
+	if ops != "." {
+		var probes [][]byte
+		for _, op := range strings.Split(ops, ";") {
+			p := strings.Split(op, ":")
+			if (p[0] == "a" || p[0] == "m") && len(p) == 2 {
+				probes = append(probes, unhex(p[1]))
+			}
+		}
+		keep := deepCopy(probes)
+		seq := make([]bool, len(probes))
+		for i, d := range probes {
+			seq[i] = flt.Matches(d)
+		}
+		var wg sync.WaitGroup
+		okc := make([]bool, 4)
+		for k := range okc {
+			wg.Add(1)
+			go func(k int) {
+				defer wg.Done()
+				defer func() { _ = recover() }()
+				good := true
+				for i, d := range probes {
+					good = good && flt.Matches(d) == seq[i]
+				}
+				okc[k] = good
+			}(k)
+		}
+		wg.Wait()
+		for _, g := range okc {
+			if !g {
+				return "err:concurrent-matches"
+			}
+		}
+		if !sameItems(probes, keep) {
+			return "err:input-mutated"
+		}
 	}
 	msg := flt.MsgFilterLoad()
 	if msg == nil {
